@@ -75,10 +75,22 @@ pub async fn broker(
                 if send_diagnostics {
                     notify(iotx.clone(), uri.clone(), &doc).await;
                 }
+                #[cfg(feature = "verif")]
+                let verif_event = verif_describe(&uri, &doc, None);
                 docs.insert(uri.path().to_string(), doc);
+                #[cfg(feature = "verif")]
+                crate::verif_trace::emit("B", "open", verif_event);
             }
             DocumentRequest::Change(uri, changes) => {
                 use std::collections::hash_map::Entry;
+                #[cfg(feature = "verif")]
+                if !docs.contains_key(uri.path()) {
+                    crate::verif_trace::emit(
+                        "B",
+                        "change",
+                        serde_json::json!({"uri": uri.as_str(), "found": false}),
+                    );
+                }
                 match docs.entry(uri.path().to_string()) {
                     Entry::Occupied(mut entry) => {
                         let doc = entry.get().clone();
@@ -87,17 +99,32 @@ pub async fn broker(
                         if send_diagnostics {
                             notify(iotx.clone(), uri.clone(), &new_doc).await;
                         }
+                        #[cfg(feature = "verif")]
+                        let verif_event = verif_describe(
+                            &uri,
+                            &new_doc,
+                            Some(AnalyzedSource::new(new_doc.text.clone())),
+                        );
                         entry.insert(new_doc);
+                        #[cfg(feature = "verif")]
+                        crate::verif_trace::emit("B", "change", verif_event);
                     }
                     Entry::Vacant(_) => { /* This should not happen. Ignoring it. */ }
                 };
             }
             DocumentRequest::Close(uri) => {
                 docs.remove(uri.path());
+                #[cfg(feature = "verif")]
+                crate::verif_trace::emit("B", "close", serde_json::json!({"uri": uri.as_str()}));
             }
             DocumentRequest::GetInfo(uri, tx) => {
                 let doc = docs.get(uri.path()).cloned();
+                #[cfg(feature = "verif")]
+                let verif_event = serde_json::json!({"uri": uri.as_str(), "found": doc.is_some(),
+                    "len": doc.as_ref().map(|doc| doc.text.len())});
                 tx.send(doc).expect("Cannot send messages");
+                #[cfg(feature = "verif")]
+                crate::verif_trace::emit("B", "get", verif_event);
             }
         }
     }
@@ -120,6 +147,33 @@ async fn notify(iotx: Sender<Message>, uri: Url, doc: &AnalyzedSource) {
     iotx.send(Message::Notification(notification))
         .await
         .expect("Cannot send messages");
+    #[cfg(feature = "verif")]
+    crate::verif_trace::emit(
+        "B",
+        "pub",
+        serde_json::json!({"uri": uri.as_str(), "ndiag": doc.errors().len()}),
+    );
+}
+
+/// Verification hook: cheap description of a stored document.
+/// `fresh` is the from-scratch analysis of the same text (for changes).
+#[cfg(feature = "verif")]
+fn verif_describe(
+    uri: &Url,
+    doc: &AnalyzedSource,
+    fresh: Option<AnalyzedSource>,
+) -> serde_json::Value {
+    serde_json::json!({
+        "uri": uri.as_str(),
+        "found": true,
+        "len": doc.text.len(),
+        "text": if doc.text.len() <= 256 { Some(doc.text.as_str()) } else { None },
+        "ntok": doc.tokens.len(),
+        "ndiag": doc.errors().len(),
+        "inc_eq_fresh": fresh.map(|fresh| {
+            fresh.tokens == doc.tokens && fresh.ast == doc.ast && fresh.table == doc.table
+        }),
+    })
 }
 
 fn to_text_changes(changes: Vec<TextDocumentContentChangeEvent>, text: String) -> Vec<TextChange> {
